@@ -68,6 +68,12 @@ pub fn blake2_seed32(parts: &[&[u8]]) -> [u8; 32] {
     let d = h.finalize();
     d[..32].try_into().unwrap()
 }
+static CURRENT_PROP: std::sync::OnceLock<String> = std::sync::OnceLock::new();
+/// the property this process is checking ("" in the fuzz targets)
+pub fn current_prop() -> &'static str {
+    CURRENT_PROP.get().map(|s| s.as_str()).unwrap_or("")
+}
+
 thread_local! {
     static CASE_SALT: std::cell::Cell<u64> = std::cell::Cell::new(0);
 }
@@ -707,6 +713,7 @@ pub fn scratch_dir(prop: &str, worker: usize) -> PathBuf {
 
 pub fn worker_main(prop: &dyn Prop, tier: Tier, seed: u64, worker: usize, nworkers: usize, out: &Path) {
     install_panic_hook();
+    let _ = CURRENT_PROP.set(prop.id().to_string());
     let meta = prop.meta(tier);
     let mut cx = WorkerCtx::new(prop.id(), tier, seed, worker, nworkers);
     if meta.announce {
@@ -721,6 +728,7 @@ pub fn worker_main(prop: &dyn Prop, tier: Tier, seed: u64, worker: usize, nworke
 
 pub fn replay_main(prop: &dyn Prop, path: &Path) -> i32 {
     install_panic_hook();
+    let _ = CURRENT_PROP.set(prop.id().to_string());
     let txt = match std::fs::read_to_string(path) {
         Ok(t) => t,
         Err(e) => {
